@@ -951,10 +951,25 @@ func c04FailCounter(fn *ssa.Function) func(*ssa.If) (bool, bool) {
 				}
 				if fv, ok := a.(*ssa.FreeVar); ok {
 					for i, q := range f.FreeVars {
-						if q == fv && f.Parent() != nil {
-							an.Instrs(f.Parent(), func(ins ssa.Instruction) {
-								if mc, ok := ins.(*ssa.MakeClosure); ok && mc.Fn == ssa.Value(f) && i < len(mc.Bindings) {
-									counters[mc.Bindings[i]] = true
+						if q != fv {
+							continue
+						}
+						// the closure may be made in fn itself or in code folded into it (second view)
+						for _, maker := range an.WithClosures(fn) {
+							an.Instrs(maker, func(ins ssa.Instruction) {
+								mc, ok := ins.(*ssa.MakeClosure)
+								if !ok || mc.Fn != ssa.Value(f) || i >= len(mc.Bindings) {
+									return
+								}
+								b := mc.Bindings[i]
+								counters[b] = true
+								// a variable that holds the counter's address (a pointer parameter of a helper)
+								if al, ok := b.(*ssa.Alloc); ok && al.Referrers() != nil {
+									for _, ref := range *al.Referrers() {
+										if st, ok := ref.(*ssa.Store); ok && st.Addr == ssa.Value(al) {
+											counters[st.Val] = true
+										}
+									}
 								}
 							})
 						}
